@@ -270,6 +270,7 @@ class NCRecorder:
         I, _ = _int_modules()
         self.I = I
         self.rec = I.Recorder(cfg)
+        self.order_artifact = False
 
     def ask_nc(self, n):
         rec, I = self.rec, self.I
@@ -297,6 +298,25 @@ class NCRecorder:
         # the call was rolled back: the learner is alive whatever happened inside
         st["obs"] = None if rec.dead else rec.observe()
         rec.steps.append(st)
+        return st
+
+    def tell(self, x):
+        """rec.tell(x), unless the snapshot/restore of an earlier non-committing ask has permuted the intervals of x.
+        x_mapping[x] is a SortedSet keyed by rdepth; the deep copy rebuilds it from its underlying *set* of intervals, whose
+        iteration order is by object address, so intervals of EQUAL rdepth sharing an abscissa (always an end point of both,
+        registered when the intervals were created, i.e. in id order) may come back in the other order.  tell processes them
+        in that order; the verdicts (recorded in processing order) can then not be assigned to intervals by the model, which
+        keeps insertion order.  Same family as C09:F28 (iteration order of a set after restore); no effect on any answer was
+        found in 1600 twin runs.  The comparison of the case stops before such a tell (DESIGN 4.7)."""
+        rec = self.rec
+        ss = rec.l.x_mapping.get(float(x))
+        if ss is not None and len(ss) > 1:
+            real = [rec.ids[iv] for iv in ss]
+            if real != sorted(real, key=lambda i: (rec.order[i].rdepth, i)):
+                self.order_artifact = True
+                rec.dead = True
+                return None
+        return rec.tell(x)
         return st
 
 
@@ -327,7 +347,8 @@ def int_drive(cfg, rng, max_ops, p_nc):
     rec, I = nc.rec, nc.I
     l = rec.l
     inflight = []
-    info = {"nc_asks": 0, "nc_asks_with_inflight": 0, "nc_asks_beyond_stack": 0, "nc_asks_raising": 0}
+    info = {"nc_asks": 0, "nc_asks_with_inflight": 0, "nc_asks_beyond_stack": 0, "nc_asks_raising": 0,
+            "cases_cut_at_xmapping_order_artifact": 0}
     with warnings.catch_warnings():
         warnings.simplefilter("ignore")
         while len(rec.steps) < max_ops and not rec.dead:
@@ -349,10 +370,11 @@ def int_drive(cfg, rng, max_ops, p_nc):
                 for x in inflight[:rng.randint(1, max(1, len(inflight) // 2))]:
                     if rec.dead:
                         break
-                    rec.tell(x)
+                    nc.tell(x)
                     inflight.remove(x)
             if not rec.dead and l.done() and rng.random() < 0.3:
                 break
+    info["cases_cut_at_xmapping_order_artifact"] = int(nc.order_artifact)
     return rec, info
 
 
